@@ -3,8 +3,10 @@ package exec
 import (
 	"context"
 	"encoding/json"
+	"errors"
 	"fmt"
 	"math"
+	"strconv"
 	"strings"
 
 	"github.com/theory/sqljson/path/ast"
@@ -122,6 +124,17 @@ func compareNumbers[T int | int64 | float64](left, right T) int {
 	return 0
 }
 
+// jsonNumberFloat returns num as a float64. A valid JSON number beyond the
+// range of float64, such as 1e400, is returned as ±Inf (which orders
+// correctly against every finite number) rather than as an error.
+func jsonNumberFloat(num json.Number) (float64, error) {
+	f, err := num.Float64()
+	if err != nil && errors.Is(err, strconv.ErrRange) {
+		return f, nil
+	}
+	return f, err
+}
+
 // compareIntFloat compares an int64 to a float64 by their exact values and
 // returns 0, 1, or -1. Converting the integer to float64 first would round
 // integers beyond 2^53 and make, e.g., 2^53+1 equal to the double 2^53.
@@ -159,7 +172,7 @@ func compareNumeric(left, right any) int {
 			if rightInt, err := right.Int64(); err == nil {
 				return compareNumbers(left, rightInt)
 			}
-			rightFloat, err := right.Float64()
+			rightFloat, err := jsonNumberFloat(right)
 			if err == nil {
 				return compareIntFloat(left, rightFloat)
 			}
@@ -176,7 +189,7 @@ func compareNumeric(left, right any) int {
 			if rightInt, err := right.Int64(); err == nil {
 				return -compareIntFloat(rightInt, left)
 			}
-			rightFloat, err := right.Float64()
+			rightFloat, err := jsonNumberFloat(right)
 			if err == nil {
 				return compareNumbers(left, rightFloat)
 			}
@@ -187,7 +200,7 @@ func compareNumeric(left, right any) int {
 		if left, err := left.Int64(); err == nil {
 			return compareNumeric(left, right)
 		}
-		leftFloat, err := left.Float64()
+		leftFloat, err := jsonNumberFloat(left)
 		if err == nil {
 			return compareNumeric(leftFloat, right)
 		}
